@@ -156,6 +156,9 @@ class ExporterModel(object):
         o = op['op']
         if o == 'qr':
             rec = filter_qr(op['r'], self._bp())
+            if rec and 'ts' in rec and self._bp()['tps'] == 0:
+                # a time offset cannot be expressed at tick rate 0: the record is refused (std::runtime_error), nothing changes
+                return {'wrote': False, 'stored': False, 'throws': True}
             if rec:
                 self.block.qr.append(rec)
                 self.block.src.append(('qr', i))
@@ -183,6 +186,8 @@ class ExporterModel(object):
             if not self._bp()['oth'] & 1:
                 return {'wrote': False, 'stored': False}
             rec = dict(op['r'])
+            if 'ts' in rec and self._bp()['tps'] == 0:
+                return {'wrote': False, 'stored': False, 'throws': True}
             if rec:
                 self.block.mm.append(rec)
                 self.block.src.append(('mm', i))
@@ -209,11 +214,15 @@ class ExporterModel(object):
             return self.counters()
         if o == 'edithints':
             # in-place edit through get_active_block_parameters_ref(): affects blocks armed from now on
-            for k in ('qrh', 'sigh', 'rrh', 'oth'):
+            for k in ('qrh', 'sigh', 'rrh', 'oth', 'tps', 'max'):
                 if k in op:
                     self.bps[self.active][k] = op[k]
             return {}
         if o == 'dblock':
+            dbp = self.bps[op['bp']]
+            if dbp['tps'] == 0 and any('ts' in it['r'] and (it['k'] != 'qr' or 'ts' in (filter_qr(it['r'], dbp) or {}))
+                                       and (it['k'] != 'mm' or dbp['oth'] & 1) for it in op['items'] if it['k'] in ('qr', 'mm', 'rawqr', 'rawmm')):
+                return {'wrote': False, 'throws': True}      # the application's add_* call is refused, it does not write the block
             blk = self.direct_block(op)
             wrote = False
             if blk.items() > 0:
